@@ -102,7 +102,7 @@ def main():
         "engines": [{"name": "mabsim", "path": "sim/run.py", "serves_properties": sorted(P),
                      "kind_free_text": "deterministic simulation with fault injection: one seed -> one replayable run; seeded scheduler (SimParallel) over thread interleavings, process batching, partitions, machine size; generated operation histories with restarts, rejected calls, interference, reordering, chunking, knob settings, caller-owned buffers / dictionaries re-used in place, narrow dtypes; reference models and replicas as oracles; ddmin minimisation; JSON replay files"}],
         "checks": checks,
-        "notes": "All checks: exit 0 = held on everything explored (KNOWN-FINDING lines for entries of /verif/known_findings.json), exit 1 = 'VIOLATION property=<id> replay=<path>' (minimised, replayed once in a fresh interpreter before being printed), exit 2 = HARNESS-ERROR (never a verdict). Env: VERIF_SEED, VERIF_TIER, VERIF_BUDGET_S (thorough, default 900 s), VERIF_RUNS, VERIF_WORKERS. Self-test: sim/run.py --selftest determinism. Sensitivity: sim/mutant.py --all [--target-only --runs N] (164 seeded changes under /verif/seeded: 20 reverts of fix commits, 144 written independently by sub-agents). Reach of the workloads: sim/reach.py (lines of mabwiser that no check executes).",
+        "notes": "All checks: exit 0 = held on everything explored (KNOWN-FINDING lines for entries of /verif/known_findings.json), exit 1 = 'VIOLATION property=<id> replay=<path>' (minimised, replayed once in a fresh interpreter before being printed), exit 2 = HARNESS-ERROR (never a verdict). Env: VERIF_SEED, VERIF_TIER, VERIF_BUDGET_S (thorough, default 900 s), VERIF_RUNS, VERIF_WORKERS. Self-test: sim/run.py --selftest determinism. Sensitivity: sim/mutant.py --all [--target-only --runs N] (147 seeded changes under /verif/seeded: 20 reverts of fix commits, 127 written independently by sub-agents (one retired)). Reach of the workloads: sim/reach.py (lines of mabwiser that no check executes).",
         "not_applicable": [],
     }
     json.dump(m, open(os.path.join(VERIF, "MANIFEST.json"), "w"), indent=1)
